@@ -40,6 +40,11 @@ let handle (line : string) : string =
       (match root_of tbl root with
        | None -> "NOROOT"
        | Some r -> string_of_cl (run_decode tbl (abort = "1") r (bytes_of_hex hex)))
+  | ["spec"; tb; root; hex] ->
+      let tbl = tables_of tb in
+      (match root_of tbl root with
+       | None -> "NOROOT"
+       | Some r -> string_of_cl (run_spec tbl r (bytes_of_hex hex)))
   | ["obj"; tb; root; hex] ->
       let tbl = tables_of tb in
       (match root_of tbl root with
